@@ -211,7 +211,11 @@ def build_http_config(rng, keyname="rsa1024_a", hostile=False, extras=True, allo
         for _ in range(rng.randrange(0, 5)):
             name = rng.choice(list(tables.INJECT_EXECUTORS))
             if name.endswith("_") and name != "NtQueueApcThread_s":
-                items.append((name, rng.choice([0, 0x10, 0x2F0]), rng.choice(["ntdll", "kernel32.dll"]), rng.choice(["RtlUserThreadStart", "LoadLibraryA"])))
+                mods, fns = ["ntdll", "kernel32.dll"], ["RtlUserThreadStart", "LoadLibraryA"]
+                if hostile:  # printable text that the profile language would read as escapes if it were written unescaped
+                    mods += ["c:\\temp\\ntdll", "a\"b", "m\\x41"]
+                    fns += ["Rtl\\", "f\\u0041", "g'h"]
+                items.append((name, rng.choice([0, 0x10, 0x2F0]), rng.choice(mods), rng.choice(fns)))
             else:
                 items.append((name,))
         m["execute"] = items
